@@ -41,7 +41,7 @@ func printThenWhileFrameHeld(out *scenOut, next string) {
 	select {
 	case <-w.entered:
 	case <-time.After(3 * time.Second):
-		run.p.Kill()
+		killNow(run.p)
 		run.wait(3 * time.Second)
 		return
 	}
@@ -77,7 +77,7 @@ func printThenWhileFrameHeld(out *scenOut, next string) {
 	out.record("print-frame-held/"+next, desc)
 	if !run.wait(4 * time.Second) {
 		out.fail(finding{Property: "C04", Class: "new", What: "Run did not return after quit", Input: desc})
-		run.p.Kill()
+		killNow(run.p)
 		run.wait(3 * time.Second)
 		return
 	}
@@ -166,7 +166,7 @@ func printContent(out *scenOut) {
 	desc := "Println / Printf commands and methods with '%' in the text, several arguments, a newline"
 	out.record("print-content", desc)
 	if !run.wait(4 * time.Second) {
-		run.p.Kill()
+		killNow(run.p)
 		run.wait(3 * time.Second)
 		return
 	}
@@ -210,7 +210,7 @@ func printThenAltThenQuit(out *scenOut) {
 	run.p.Quit()
 	out.record("print-then-alt-then-quit", desc)
 	if !run.wait(4 * time.Second) {
-		run.p.Kill()
+		killNow(run.p)
 		run.wait(3 * time.Second)
 		return
 	}
